@@ -287,7 +287,12 @@ static void runL3(const plan::Plan& p, hz::RunResult* res, bool verbose) {
   static options_t opt;
   int pr = parse_main_args(static_cast<int>(args.size()), argv.data(), envp, &opt);
   if (pr != 0) {
-    res->violate("INFRA", "infra", "daemon arguments rejected", "parse_main_args failed");
+    // the MQTT family hands over topic templates that are matchable by construction (constants and variables separated by
+    // constants): a daemon that refuses one cannot map any topic of it back
+    std::string mt;
+    for (auto& a : args) if (a.compare(0, 12, "--mqtttopic=") == 0) mt = a;
+    if (c.get("family") == "c18m" && !mt.empty()) res->violate("C18", "mqtt-topic-mapping", "template-rejected", "the daemon rejects its arguments with " + mt);
+    else res->violate("INFRA", "infra", "daemon arguments rejected", "parse_main_args failed");
     rmTree(g_scratch);
     hz::finishRun(res);
   }
